@@ -35,6 +35,7 @@ type Prog struct {
 	gconst    map[*ssa.Global]bool
 	recTemplates map[string]*recTemplate
 	mu        sync.Mutex
+	siteMu    sync.Mutex
 	derefDefs map[string]string // deref_<T> declarations + defining axioms
 	tupleTop  map[string]string   // "f h1 h2.." -> allocator top when f first read that heap version
 	recParams map[string][]recParam
@@ -102,6 +103,12 @@ func loadProg(repoDir string) (*Prog, error) {
 				}
 			}
 		}
+	}
+	P.ss.sitesOf = func(t types.Type) int {
+		if _, ok := t.Underlying().(*types.Struct); !ok {
+			return 0
+		}
+		return len(P.sitesFor(t))
 	}
 	// dependency audit: functions of the page-buffer dependency can be put under contract too
 	// (key "dep/filebuffer:<name>"); calls into the dependency from /repo keep using the assumed contracts
